@@ -46,7 +46,7 @@ ActsReads == Only({"select", "selectsub", "selectfn", "selectinline", "selectagg
 \* a procedure that reads, executes nested statements and reads again while another process commits in between
 ActsNested == Only({"select", "selectsub", "selectagg", "selectfn", "selectinline", "env", "nestexec", "nestsource", "nestprep", "callnoop"})
               \cup {a \in Only({"insert1", "update"}) : a.t \in {"f1", TempT} /\ a.k = 1}
-\* the quick model-checking configurations leave out the statements that name the sub-directory's file from the top
+\* the model-checking configurations (the depth-6 ones of the thorough tier too: the full action set does not end within 40 minutes) leave out the statements that name the sub-directory's file from the top
 \* directory (`sub/f1.csv`): the file is reached through the name f1 after a change of the repository
 NextQ == \E a \in {b \in Actions : b.t # SubFile /\ b.u # SubFile} : Do(a)
 Depth6 == TLCGet("level") <= 6
